@@ -1,6 +1,37 @@
 package main
 
-// RegexSpec / RegexResult: the C07 regex bridge (filled in by regexjob_impl).
+// The C07 regex bridge (DESIGN.md §2.9).  Go's regexp matcher cannot be executed symbolically,
+// so the *pattern constants* are pulled out of the SSA of safelog's init on every run, parsed
+// with Go's own regexp/syntax and translated to the solver's regular-expression theory.
+//
+//  F1  coverage: for each reference address family R (written here from the textual forms Go's
+//      net package prints/accepts, independently of the patterns) and each delimiter context,
+//      "exists T in left·R·right with no match of fullAddrPattern anywhere in T" must be unsat;
+//      and every fullAddrPattern match must contain an addressPattern match.
+//  W   witnesses: solver-generated multi-address lines (a1 d a2 [d a3]) are run through the
+//      real Scrub natively; an address in delimiter context that survives is a violation.
+//      (F2 - Scrub returns a fixpoint of the one-pass replacement - is decided by the engine
+//      harness VerifC07_ScrubFixpoint; with F1 it implies the multi-address clause for every
+//      line, and the witnesses are then a cross-check.  Without F2 the witnesses are the only
+//      coverage of that clause and the evidence says so.)
+
+import (
+	"encoding/json"
+	"fmt"
+	"go/constant"
+	"os"
+	"os/exec"
+	"path/filepath"
+	"regexp"
+	"regexp/syntax"
+	"sort"
+	"strings"
+	"sync"
+	"time"
+
+	"golang.org/x/tools/go/ssa"
+)
+
 type RegexSpec struct {
 	Package string         `json:"package"`
 	CapS    map[string]int `json:"cap_s"`
@@ -23,11 +54,839 @@ type RegexResult struct {
 	Inconcl    []string                 `json:"inconclusive,omitempty"`
 	Violations []*RegexWitness          `json:"violations,omitempty"`
 	Samples    []interface{}            `json:"samples,omitempty"`
+	Witnesses  int                      `json:"witness_lines_run_through_real_Scrub"`
+	XVal       int                      `json:"translation_cross_validation_strings"`
+}
+
+const sBegin, sEnd = 0x2, 0x3
+
+func reCh(r rune) string { return fmt.Sprintf("\"\\u{%x}\"", r) }
+
+func reRng(lo, hi rune) []string {
+	var out []string
+	add := func(a, b rune) {
+		if a > b {
+			return
+		}
+		if a == b {
+			out = append(out, "(str.to_re "+reCh(a)+")")
+		} else {
+			out = append(out, "(re.range "+reCh(a)+" "+reCh(b)+")")
+		}
+	}
+	if hi > 0x2FFFF {
+		hi = 0x2FFFF
+	}
+	// remove the two sentinels from every class
+	cur := lo
+	for _, s := range []rune{sBegin, sEnd} {
+		if s >= cur && s <= hi {
+			add(cur, s-1)
+			cur = s + 1
+		}
+	}
+	add(cur, hi)
+	return out
+}
+
+func reUnion(xs []string) string {
+	if len(xs) == 0 {
+		return "re.none"
+	}
+	if len(xs) == 1 {
+		return xs[0]
+	}
+	return "(re.union " + strings.Join(xs, " ") + ")"
+}
+func reConcat(xs ...string) string {
+	if len(xs) == 0 {
+		return "(str.to_re \"\")"
+	}
+	if len(xs) == 1 {
+		return xs[0]
+	}
+	return "(re.++ " + strings.Join(xs, " ") + ")"
+}
+
+func reTranslate(re *syntax.Regexp) (string, error) {
+	var tr func(re *syntax.Regexp) string
+	var terr error
+	tr = func(re *syntax.Regexp) string {
+		switch re.Op {
+		case syntax.OpEmptyMatch:
+			return "(str.to_re \"\")"
+		case syntax.OpLiteral:
+			var xs []string
+			for _, r := range re.Rune {
+				if re.Flags&syntax.FoldCase != 0 {
+					terr = fmt.Errorf("case folding not supported")
+				}
+				xs = append(xs, "(str.to_re "+reCh(r)+")")
+			}
+			return reConcat(xs...)
+		case syntax.OpCharClass:
+			var xs []string
+			for i := 0; i+1 < len(re.Rune); i += 2 {
+				xs = append(xs, reRng(re.Rune[i], re.Rune[i+1])...)
+			}
+			return reUnion(xs)
+		case syntax.OpAnyChar:
+			return reUnion(reRng(0, 0x2FFFF))
+		case syntax.OpAnyCharNotNL:
+			return reUnion(append(reRng(0, '\n'-1), reRng('\n'+1, 0x2FFFF)...))
+		case syntax.OpBeginText:
+			return "(str.to_re " + reCh(sBegin) + ")"
+		case syntax.OpEndText:
+			return "(str.to_re " + reCh(sEnd) + ")"
+		case syntax.OpCapture:
+			return tr(re.Sub[0])
+		case syntax.OpStar:
+			return "(re.* " + tr(re.Sub[0]) + ")"
+		case syntax.OpPlus:
+			return "(re.+ " + tr(re.Sub[0]) + ")"
+		case syntax.OpQuest:
+			return "(re.opt " + tr(re.Sub[0]) + ")"
+		case syntax.OpRepeat:
+			if re.Max < 0 {
+				return fmt.Sprintf("(re.++ ((_ re.loop %d %d) %s) (re.* %s))", re.Min, re.Min, tr(re.Sub[0]), tr(re.Sub[0]))
+			}
+			return fmt.Sprintf("((_ re.loop %d %d) %s)", re.Min, re.Max, tr(re.Sub[0]))
+		case syntax.OpConcat:
+			var xs []string
+			for _, s := range re.Sub {
+				xs = append(xs, tr(s))
+			}
+			return reConcat(xs...)
+		case syntax.OpAlternate:
+			var xs []string
+			for _, s := range re.Sub {
+				xs = append(xs, tr(s))
+			}
+			return reUnion(xs)
+		}
+		terr = fmt.Errorf("regexp operator %s not supported by the translation", re.Op)
+		return "re.none"
+	}
+	s := tr(re)
+	return s, terr
+}
+
+func goRegexToSMT(pat string) (string, error) {
+	re, err := syntax.Parse(pat, syntax.Perl)
+	if err != nil {
+		return "", err
+	}
+	return reTranslate(re)
+}
+
+// extractPatterns finds the constant arguments of regexp.MustCompile in the package's init and
+// classifies them by where the result is stored: the global named addressRegexp -> "addr",
+// anything else (the scrubberPatterns slice) -> "full<k>".
+func extractPatterns(pkgDir string) (map[string]string, error) {
+	spec := &JobSpec{Pkg: pkgDir}
+	ld, err := loadJob(spec, nil)
+	if err != nil {
+		return nil, err
+	}
+	out := map[string]string{}
+	nfull := 0
+	for name, mem := range ld.pkg.Members {
+		f, ok := mem.(*ssa.Function)
+		if !ok || !(name == "init" || strings.HasPrefix(name, "init#")) {
+			continue
+		}
+		for _, b := range f.Blocks {
+			for _, in := range b.Instrs {
+				call, ok := in.(*ssa.Call)
+				if !ok {
+					continue
+				}
+				callee, ok := call.Call.Value.(*ssa.Function)
+				if !ok || callee.String() != "regexp.MustCompile" {
+					continue
+				}
+				c, ok := call.Call.Args[0].(*ssa.Const)
+				if !ok {
+					return nil, fmt.Errorf("regexp.MustCompile with a non-constant pattern in %s", pkgDir)
+				}
+				pat := constant.StringVal(c.Value)
+				key := ""
+				for _, ref := range *call.Referrers() {
+					if st, ok := ref.(*ssa.Store); ok {
+						if g, ok := st.Addr.(*ssa.Global); ok {
+							key = g.Name()
+						}
+					}
+				}
+				switch key {
+				case "addressRegexp":
+					out["addr"] = pat
+				default:
+					out[fmt.Sprintf("full%d", nfull)] = pat
+					nfull++
+				}
+			}
+		}
+	}
+	if out["addr"] == "" || out["full0"] == "" {
+		return nil, fmt.Errorf("could not find the scrubber patterns in %s (found %v)", pkgDir, out)
+	}
+	return out, nil
+}
+
+// ---- reference grammar (Go regexp syntax; independent of safelog's patterns) -------------------
+
+const (
+	refOctet = `(25[0-5]|2[0-4][0-9]|1[0-9][0-9]|[1-9]?[0-9])`
+	refIPv4  = refOctet + `\.` + refOctet + `\.` + refOctet + `\.` + refOctet
+	refH16   = `[0-9a-fA-F]{1,4}`
+	refPort  = `[0-9]{1,5}`
+)
+
+func refGroups(n int) string { // n >= 1 groups separated by ':'
+	if n == 1 {
+		return refH16
+	}
+	return refH16 + fmt.Sprintf(`(:%s){%d}`, refH16, n-1)
+}
+
+// compressed forms: a groups, "::", b groups  (a+b <= max)
+func refCompressed(max int, tail string) string {
+	var alts []string
+	for a := 0; a <= max; a++ {
+		for b := 0; a+b <= max; b++ {
+			s := ""
+			if a > 0 {
+				s += refGroups(a)
+			}
+			s += "::"
+			if b > 0 {
+				s += refGroups(b)
+				if tail != "" {
+					s += ":"
+				}
+			}
+			s += tail
+			alts = append(alts, s)
+		}
+	}
+	return "(" + strings.Join(alts, "|") + ")"
+}
+
+type refFamily struct{ name, pat string }
+
+func refFamilies() []refFamily {
+	v6full := refGroups(8)
+	v6comp := refCompressed(7, "")
+	v6emb := "(" + refGroups(6) + ":" + refIPv4 + "|" + refCompressed(5, refIPv4) + ")"
+	return []refFamily{
+		{"ipv4", refIPv4},
+		{"ipv4-port", refIPv4 + ":" + refPort},
+		{"ipv6-full", v6full},
+		{"ipv6-compressed", v6comp},
+		{"ipv6-ipv4-embedded", v6emb},
+		{"ipv6-full-bracketed", `\[` + v6full + `\]`},
+		{"ipv6-compressed-bracketed", `\[` + v6comp + `\]`},
+		{"ipv6-ipv4-embedded-bracketed", `\[` + v6emb + `\]`},
+		{"ipv6-full-bracketed-port", `\[` + v6full + `\]:` + refPort},
+		{"ipv6-compressed-bracketed-port", `\[` + v6comp + `\]:` + refPort},
+	}
+}
+
+// delimiter contexts: line boundary (text boundary), whitespace, punctuation other than ':'
+var refLeft = map[string]string{"start": `^`, "space": `[\t\n\f\r ]`, "punct": `[^0-9A-Za-z_:\t\n\f\r ]`}
+var refRight = map[string]string{"end": `$`, "space": `[\t\n\f\r ]`, "punct": `[^0-9A-Za-z_:\t\n\f\r ]`}
+
+// allReferenceGo is the Go regexp that finds any reference address in delimiter context
+// (used natively on Scrub's output).
+func allReferenceGo() string {
+	var alts []string
+	for _, f := range refFamilies() {
+		alts = append(alts, "("+f.pat+")")
+	}
+	return `(^|[\t\n\f\r ]|[^0-9A-Za-z_:\t\n\f\r ])(` + strings.Join(alts, "|") + `)($|[\t\n\f\r ]|[^0-9A-Za-z_:\t\n\f\r ])`
+}
+
+// ---- solver portfolio -----------------------------------------------------------------------------
+
+type reAnswer struct {
+	res    string
+	model  string
+	solver string
+	dt     time.Duration
+}
+
+// runRegexQuery runs z3-new and cvc5 side by side; the first definite answer wins.
+func runRegexQuery(script string, capS int, wantModel bool) reAnswer {
+	type be struct {
+		name string
+		args []string
+		pre  string
+	}
+	z3script := script
+	cvcScript := strings.ReplaceAll(script, "(RegEx String)", "RegLan")
+	get := ""
+	if wantModel {
+		get = "(get-value (T))\n"
+	}
+	backends := []be{
+		{"z3-new", []string{"-in", fmt.Sprintf("-T:%d", capS)}, z3script + "(check-sat)\n" + get},
+		{"cvc5", []string{"--lang=smt2", "--produce-models", "--strings-exp", fmt.Sprintf("--tlimit=%d", capS*1000)}, "(set-logic QF_SLIA)\n" + cvcScript + "(check-sat)\n" + get},
+	}
+	ch := make(chan reAnswer, len(backends))
+	var cmds []*exec.Cmd
+	var mu sync.Mutex
+	for _, b := range backends {
+		b := b
+		go func() {
+			cmd := exec.Command(b.name, b.args...)
+			cmd.Stdin = strings.NewReader(b.pre)
+			mu.Lock()
+			cmds = append(cmds, cmd)
+			mu.Unlock()
+			t0 := time.Now()
+			out, _ := cmd.CombinedOutput()
+			txt := string(out)
+			first := ""
+			for _, l := range strings.Split(txt, "\n") {
+				l = strings.TrimSpace(l)
+				if l == "sat" || l == "unsat" || l == "unknown" || l == "timeout" {
+					first = l
+					break
+				}
+			}
+			a := reAnswer{res: "unknown", solver: b.name, dt: time.Since(t0)}
+			if strings.Contains(txt, "(error") && first != "sat" && first != "unsat" {
+				a.res = "unknown"
+			} else if first == "sat" || first == "unsat" {
+				a.res = first
+				if first == "sat" {
+					if i := strings.Index(txt, "((T "); i >= 0 {
+						a.model = txt[i:]
+					}
+				}
+			}
+			ch <- a
+		}()
+	}
+	var got []reAnswer
+	for range backends {
+		a := <-ch
+		got = append(got, a)
+		if a.res == "sat" || a.res == "unsat" {
+			mu.Lock()
+			for _, c := range cmds {
+				if c.Process != nil {
+					c.Process.Kill()
+				}
+			}
+			mu.Unlock()
+			return a
+		}
+	}
+	return got[0]
+}
+
+// decodeSMTString turns the solver's string literal ("..." with \u{..} escapes and "" quotes)
+// into a Go string, dropping the sentinels.
+func decodeSMTString(model string) (string, bool) {
+	i := strings.Index(model, "\"")
+	j := strings.LastIndex(model, "\"")
+	if i < 0 || j <= i {
+		return "", false
+	}
+	s := model[i+1 : j]
+	var sb strings.Builder
+	for k := 0; k < len(s); k++ {
+		if s[k] == '"' && k+1 < len(s) && s[k+1] == '"' {
+			sb.WriteByte('"')
+			k++
+			continue
+		}
+		if s[k] == '\\' && k+2 < len(s) && s[k+1] == 'u' {
+			if s[k+2] == '{' {
+				e := strings.IndexByte(s[k:], '}')
+				if e > 0 {
+					var v int
+					fmt.Sscanf(s[k+3:k+e], "%x", &v)
+					if v != sBegin && v != sEnd {
+						sb.WriteRune(rune(v))
+					}
+					k += e
+					continue
+				}
+			} else if k+5 < len(s) {
+				var v int
+				fmt.Sscanf(s[k+2:k+6], "%x", &v)
+				if v != sBegin && v != sEnd {
+					sb.WriteRune(rune(v))
+				}
+				k += 5
+				continue
+			}
+		}
+		sb.WriteByte(s[k])
+	}
+	return sb.String(), true
+}
+
+func smtDefs(pats map[string]string) (string, error) {
+	var sb strings.Builder
+	keys := make([]string, 0, len(pats))
+	for k := range pats {
+		keys = append(keys, k)
+	}
+	sort.Strings(keys)
+	for _, k := range keys {
+		s, err := goRegexToSMT(pats[k])
+		if err != nil {
+			return "", fmt.Errorf("pattern %s: %v", k, err)
+		}
+		fmt.Fprintf(&sb, "(define-fun %s () (RegEx String) %s)\n", k, s)
+	}
+	sb.WriteString("(define-fun sigma () (RegEx String) " + reUnion(reRng(0, 0x2FFFF)) + ")\n")
+	sb.WriteString("(define-fun anyc () (RegEx String) (re.union sigma (str.to_re " + reCh(sBegin) + ") (str.to_re " + reCh(sEnd) + ")))\n")
+	sb.WriteString("(declare-const T String)\n")
+	return sb.String(), nil
 }
 
 func runRegex(spec *RegexSpec, tier, id string) *RegexResult {
-	return &RegexResult{Inconcl: []string{"regex bridge not built yet"}}
+	res := &RegexResult{}
+	pats, err := extractPatterns(spec.Package)
+	if err != nil {
+		res.Inconcl = append(res.Inconcl, err.Error())
+		return res
+	}
+	res.Patterns = pats
+	capS := spec.CapS[tier]
+	if capS == 0 {
+		capS = 60
+	}
+	all := map[string]string{}
+	for k, v := range pats {
+		all[k] = v
+	}
+	fams := refFamilies()
+	for _, f := range fams {
+		all["ref_"+strings.ReplaceAll(f.name, "-", "_")] = f.pat
+	}
+	for k, v := range refLeft {
+		all["left_"+k] = v
+	}
+	for k, v := range refRight {
+		all["right_"+k] = v
+	}
+	defs, err := smtDefs(all)
+	if err != nil {
+		res.Inconcl = append(res.Inconcl, err.Error())
+		return res
+	}
+	// cross-validate the translation against Go's regexp on sample strings (native run)
+	xv, xerr := crossValidate(pats, defs)
+	res.XVal = xv
+	if xerr != nil {
+		res.Inconcl = append(res.Inconcl, "translation cross-validation: "+xerr.Error())
+		return res
+	}
+	var fullNames []string
+	for k := range pats {
+		if strings.HasPrefix(k, "full") {
+			fullNames = append(fullNames, k)
+		}
+	}
+	sort.Strings(fullNames)
+	hasMatch := "(re.union"
+	for _, fn := range fullNames {
+		hasMatch += " (re.++ (re.* anyc) " + fn + " (re.* anyc))"
+	}
+	if len(fullNames) == 1 {
+		hasMatch = "(re.++ (re.* anyc) " + fullNames[0] + " (re.* anyc))"
+	} else {
+		hasMatch += ")"
+	}
+	wrap := func(body string) string {
+		return "(re.++ (str.to_re " + reCh(sBegin) + ") " + body + " (str.to_re " + reCh(sEnd) + "))"
+	}
+	ctx := func(l, fam, r string) string {
+		// the text T (with sentinels) is  S? left fam right E?  : "start"/"end" are the sentinels
+		parts := []string{}
+		if l == "start" {
+			parts = append(parts, "(str.to_re "+reCh(sBegin)+")")
+		} else {
+			parts = append(parts, "(str.to_re "+reCh(sBegin)+")", "left_"+l)
+		}
+		parts = append(parts, fam)
+		if r == "end" {
+			parts = append(parts, "(str.to_re "+reCh(sEnd)+")")
+		} else {
+			parts = append(parts, "right_"+r, "(str.to_re "+reCh(sEnd)+")")
+		}
+		return reConcat(parts...)
+	}
+	_ = wrap
+	type job struct {
+		name, script string
+		expectUnsat  bool
+		fam          string
+	}
+	var jobs []job
+	lefts := []string{"start", "space", "punct"}
+	rights := []string{"end", "space", "punct"}
+	for _, f := range fams {
+		fam := "ref_" + strings.ReplaceAll(f.name, "-", "_")
+		for _, l := range lefts {
+			for _, r := range rights {
+				s := defs + "(assert (str.in_re T " + ctx(l, fam, r) + "))\n(assert (not (str.in_re T " + hasMatch + ")))\n"
+				jobs = append(jobs, job{name: fmt.Sprintf("F1 %s [%s|%s]", f.name, l, r), script: s, expectUnsat: true, fam: f.name})
+			}
+		}
+	}
+	// every outer match contains an inner (address) match: a pass that matches changes the text.
+	// Decided structurally when the outer pattern is literally  left · address · right  (a run
+	// of the top-level concatenation translates to exactly the address pattern's translation);
+	// only otherwise is the language inclusion handed to the solvers.
+	addrSMT, _ := goRegexToSMT(pats["addr"])
+	structural := map[string]bool{}
+	for _, fn := range fullNames {
+		if re, err := syntax.Parse(pats[fn], syntax.Perl); err == nil && re.Op == syntax.OpConcat {
+			for i := 0; i < len(re.Sub) && !structural[fn]; i++ {
+				for j := i + 1; j <= len(re.Sub); j++ {
+					var xs []string
+					bad := false
+					for _, sub := range re.Sub[i:j] {
+						t, err := reTranslate(sub)
+						if err != nil {
+							bad = true
+						}
+						xs = append(xs, t)
+					}
+					if !bad && reConcat(xs...) == addrSMT {
+						structural[fn] = true
+						break
+					}
+				}
+			}
+		}
+		if structural[fn] {
+			res.Queries++
+			res.Discharged++
+			res.Families = append(res.Families, map[string]interface{}{"query": "F1 every " + fn + " match contains an address match", "answer": "holds by construction: the pattern is left·address·right (syntactic check on the regexp/syntax trees)"})
+		}
+	}
+	for _, fn := range fullNames {
+		if structural[fn] {
+			continue
+		}
+		s := defs + "(assert (str.in_re T " + fn + "))\n(assert (not (str.in_re T (re.++ (re.* anyc) addr (re.* anyc)))))\n"
+		jobs = append(jobs, job{name: "F1 every " + fn + " match contains an address match", script: s, expectUnsat: true, fam: "inner-match"})
+	}
+	// the placeholder contains no address
+	s := defs + "(assert (= T \"[scrubbed]\"))\n(assert (str.in_re T (re.++ (re.* anyc) addr (re.* anyc))))\n"
+	jobs = append(jobs, job{name: "F1 the placeholder contains no address match", script: s, expectUnsat: true, fam: "placeholder"})
+
+	t0 := time.Now()
+	type outT struct {
+		j job
+		a reAnswer
+	}
+	outs := make([]outT, len(jobs))
+	sem := make(chan struct{}, 8)
+	var wg sync.WaitGroup
+	for i, j := range jobs {
+		wg.Add(1)
+		go func(i int, j job) {
+			defer wg.Done()
+			sem <- struct{}{}
+			defer func() { <-sem }()
+			outs[i] = outT{j, runRegexQuery(j.script, capS, true)}
+		}(i, j)
+	}
+	wg.Wait()
+	res.SolverS = time.Since(t0).Seconds()
+	var witnessInputs []string
+	for _, o := range outs {
+		res.Queries++
+		entry := map[string]interface{}{"query": o.j.name, "answer": o.a.res, "solver": o.a.solver, "time_s": o.a.dt.Seconds()}
+		switch o.a.res {
+		case "unsat":
+			res.Discharged++
+		case "sat":
+			if w, ok := decodeSMTString(o.a.model); ok {
+				entry["witness"] = w
+				witnessInputs = append(witnessInputs, w)
+			} else {
+				res.Inconcl = append(res.Inconcl, "sat without a readable witness: "+o.j.name)
+			}
+		default:
+			res.Inconcl = append(res.Inconcl, "not discharged within the cap: "+o.j.name)
+		}
+		res.Families = append(res.Families, entry)
+	}
+	// multi-address witness lines from the solver: a1 d a2 (and a1 d a2 d a3), one per family
+	// pair and delimiter class
+	gen := generateWitnessLines(defs, fams, tier)
+	res.Queries += gen.queries
+	witnessInputs = append(witnessInputs, gen.lines...)
+	for _, in := range gen.inconcl {
+		res.Inconcl = append(res.Inconcl, in)
+	}
+	// run every witness through the real Scrub
+	outsN, nerr := nativeScrub(witnessInputs)
+	if nerr != nil {
+		res.Inconcl = append(res.Inconcl, "native Scrub run failed: "+nerr.Error())
+		return res
+	}
+	res.Witnesses = len(witnessInputs)
+	seen := map[string]bool{}
+	for i, in := range witnessInputs {
+		o := outsN[i]
+		if len(res.Samples) < 12 {
+			res.Samples = append(res.Samples, map[string]string{"note": "solver-generated line through the real Scrub", "input": in, "output": o.Output})
+		}
+		if o.Survivor != "" {
+			fam := o.Family
+			if seen[fam] {
+				continue
+			}
+			seen[fam] = true
+			res.Violations = append(res.Violations, &RegexWitness{Kind: "address survives the scrubber", Family: fam, Input: in, Output: o.Output})
+		}
+	}
+	return res
 }
 
-func cmdConsts(args []string) int   { return 2 }
-func cmdSelftest(args []string) int { return 0 }
+type genResult struct {
+	lines   []string
+	queries int
+	inconcl []string
+}
+
+func generateWitnessLines(defs string, fams []refFamily, tier string) genResult {
+	var g genResult
+	seps := map[string]string{"space": `[\t\n\f\r ]`, "newline": `\n`, "punct": `[,;()=]`}
+	sepNames := []string{"space", "newline", "punct"}
+	var sepDefs strings.Builder
+	for _, n := range sepNames {
+		s, _ := goRegexToSMT(seps[n])
+		fmt.Fprintf(&sepDefs, "(define-fun sep_%s () (RegEx String) %s)\n", n, s)
+	}
+	type q struct{ name, script string }
+	var qs []q
+	pick := fams
+	if tier != "thorough" && len(pick) > 6 {
+		pick = pick[:6]
+	}
+	for i, a := range pick {
+		for j, b := range pick {
+			if tier != "thorough" && (i+j)%2 == 1 {
+				continue
+			}
+			sn := sepNames[(i+j)%len(sepNames)]
+			fa, fb := "ref_"+strings.ReplaceAll(a.name, "-", "_"), "ref_"+strings.ReplaceAll(b.name, "-", "_")
+			body := reConcat("(str.to_re \"seen \")", fa, "sep_"+sn, fb, "(str.to_re \" ok\")")
+			qs = append(qs, q{fmt.Sprintf("W %s %s %s", a.name, sn, b.name), defs + sepDefs.String() + "(assert (str.in_re T " + body + "))\n(assert (<= (str.len T) 120))\n"})
+		}
+	}
+	// three in a row
+	for i := 0; i+2 < len(pick); i += 2 {
+		fa, fb, fc := "ref_"+strings.ReplaceAll(pick[i].name, "-", "_"), "ref_"+strings.ReplaceAll(pick[i+1].name, "-", "_"), "ref_"+strings.ReplaceAll(pick[i+2].name, "-", "_")
+		body := reConcat(fa, "sep_space", fb, "sep_space", fc, "(str.to_re \"\\u{a}\")")
+		qs = append(qs, q{"W three in a row", defs + sepDefs.String() + "(assert (str.in_re T " + body + "))\n(assert (<= (str.len T) 160))\n"})
+	}
+	outs := make([]reAnswer, len(qs))
+	sem := make(chan struct{}, 8)
+	var wg sync.WaitGroup
+	for i := range qs {
+		wg.Add(1)
+		go func(i int) {
+			defer wg.Done()
+			sem <- struct{}{}
+			defer func() { <-sem }()
+			outs[i] = runRegexQuery(qs[i].script, 30, true)
+		}(i)
+	}
+	wg.Wait()
+	for i, a := range outs {
+		g.queries++
+		if a.res == "sat" {
+			if w, ok := decodeSMTString(a.model); ok {
+				g.lines = append(g.lines, w)
+				continue
+			}
+		}
+		g.inconcl = append(g.inconcl, "no witness line generated for "+qs[i].name)
+	}
+	// a few fixed shapes the solver's minimal models tend to miss (same address twice, tab
+	// separated, one per line in one buffer)
+	g.lines = append(g.lines, "a 1.2.3.4 5.6.7.8 b\n", "1.2.3.4\n5.6.7.8\n", "[1::2]:80 [3::4]:443\n", "x=1.2.3.4,y=5.6.7.8\n")
+	return g
+}
+
+type scrubOut struct {
+	Output   string `json:"output"`
+	Survivor string `json:"survivor"`
+	Family   string `json:"family"`
+}
+
+const scrubTestTmpl = `package safelog
+
+import (
+	"encoding/json"
+	"os"
+	"regexp"
+	"testing"
+)
+
+func TestVerifScrubWitnesses(t *testing.T) {
+	b, err := os.ReadFile(os.Getenv("VERIF_SCRUB_IN"))
+	if err != nil {
+		t.Fatal(err)
+	}
+	var in struct {
+		Lines    []string
+		Ref      string
+		Families map[string]string
+	}
+	if err := json.Unmarshal(b, &in); err != nil {
+		t.Fatal(err)
+	}
+	ref := regexp.MustCompile(in.Ref)
+	type out struct {
+		Output   string ` + "`json:\"output\"`" + `
+		Survivor string ` + "`json:\"survivor\"`" + `
+		Family   string ` + "`json:\"family\"`" + `
+	}
+	var outs []out
+	for _, l := range in.Lines {
+		o := string(Scrub([]byte(l)))
+		r := out{Output: o}
+		if m := ref.FindStringSubmatch(o); m != nil {
+			r.Survivor = m[2]
+			r.Family = "unclassified"
+			for name, pat := range in.Families {
+				if regexp.MustCompile("^(" + pat + ")$").MatchString(m[2]) {
+					r.Family = name
+					break
+				}
+			}
+		}
+		outs = append(outs, r)
+	}
+	ob, _ := json.Marshal(outs)
+	os.WriteFile(os.Getenv("VERIF_SCRUB_OUT"), ob, 0644)
+}
+`
+
+// nativeScrub runs the witness lines through the real safelog.Scrub (go test -overlay).
+func nativeScrub(lines []string) ([]scrubOut, error) {
+	tmp, err := os.MkdirTemp("", "verif-scrub-")
+	if err != nil {
+		return nil, err
+	}
+	defer os.RemoveAll(tmp)
+	fams := map[string]string{}
+	for _, f := range refFamilies() {
+		fams[f.name] = f.pat
+	}
+	in := map[string]interface{}{"Lines": lines, "Ref": allReferenceGo(), "Families": fams}
+	ib, _ := json.Marshal(in)
+	inF, outF := filepath.Join(tmp, "in.json"), filepath.Join(tmp, "out.json")
+	os.WriteFile(inF, ib, 0644)
+	tf := filepath.Join(tmp, "scrub_test.go")
+	os.WriteFile(tf, []byte(scrubTestTmpl), 0644)
+	ov, _ := json.Marshal(map[string]interface{}{"Replace": map[string]string{repoDir + "/common/safelog/zz_verif_scrub_test.go": tf}})
+	ovf := filepath.Join(tmp, "overlay.json")
+	os.WriteFile(ovf, ov, 0644)
+	cmd := exec.Command("go", "test", "-vet=off", "-count=1", "-run", "^TestVerifScrubWitnesses$", "-overlay", ovf, "./common/safelog")
+	cmd.Dir = repoDir
+	cmd.Env = append(os.Environ(), "GOFLAGS=-mod=mod", "GOPROXY=off", "GOSUMDB=off", "GOTOOLCHAIN=local", "VERIF_SCRUB_IN="+inF, "VERIF_SCRUB_OUT="+outF)
+	outb, err := cmd.CombinedOutput()
+	if err != nil {
+		return nil, fmt.Errorf("%v: %s", err, tailStr(string(outb), 600))
+	}
+	ob, err := os.ReadFile(outF)
+	if err != nil {
+		return nil, err
+	}
+	var outs []scrubOut
+	if err := json.Unmarshal(ob, &outs); err != nil {
+		return nil, err
+	}
+	if len(outs) != len(lines) {
+		return nil, fmt.Errorf("native run returned %d results for %d lines", len(outs), len(lines))
+	}
+	return outs, nil
+}
+
+func tailStr(s string, n int) string {
+	if len(s) > n {
+		return s[len(s)-n:]
+	}
+	return s
+}
+
+// ---- cross-validation of the translation: Go's regexp vs the SMT model on sample strings ------
+
+var xvalSamples = []string{"", "1.2.3.4", "x1.2.3.4", "1.2.3.4x", " 1.2.3.4 ", "1.2.3", "1.2.3.4:55", "1.2.3.4:", "1.2.3.4: ", "a:1.2.3.4",
+	"1:2:3:4:c:d:e:f", "[1:2:3:4:c:d:e:f]", "[1::]:58344", "::f", "x::f", "::", ":", "a::", "33:B6:FA:F6:94", "33:B6:FA:F6:94:CA", "2019/05/08 15:37:31 starting",
+	"::ffff:255.255.255.255", "[2001:db8:3:4::192.0.2.33]", "(1:2:3:4:c:d:e:f)", "1.2.3.4\n5.6.7.8", "999.999.999.999", "1.2.3.4.5", ".1.2.3.4.", "_1.2.3.4", "1.2.3.4_",
+	"fe80::1%eth0", "12345::1", "1::2::3", "a=fingerprint:sha-256 33:B6", "http://1.2.3.4/", "1.2.3.4,5.6.7.8", "[::]", "[::", "::]", "x", "1.2.3.4:123456", "[scrubbed]"}
+
+func smtEsc(s string) string {
+	var sb strings.Builder
+	for _, r := range s {
+		fmt.Fprintf(&sb, "\\u{%x}", r)
+	}
+	return sb.String()
+}
+
+func crossValidate(pats map[string]string, defs string) (int, error) {
+	// Go side: a tiny program would need the patterns; regexp/syntax-compiled matching is
+	// available right here in the engine process (same Go regexp implementation as the repo's)
+	n := 0
+	var sb strings.Builder
+	sb.WriteString(strings.Replace(defs, "(declare-const T String)\n", "", 1))
+	for name, pat := range pats {
+		re, err := compileGo(pat)
+		if err != nil {
+			return 0, err
+		}
+		for _, s := range xvalSamples {
+			want := re.MatchString(s)
+			fmt.Fprintf(&sb, "(assert (= (str.in_re \"\\u{2}%s\\u{3}\" (re.++ (re.* anyc) %s (re.* anyc))) %v))\n", smtEsc(s), name, want)
+			n++
+		}
+	}
+	sb.WriteString("(check-sat)\n")
+	cmd := exec.Command("z3-new", "-in", "-T:60")
+	cmd.Stdin = strings.NewReader(sb.String())
+	out, _ := cmd.CombinedOutput()
+	if strings.TrimSpace(strings.SplitN(string(out), "\n", 2)[0]) != "sat" {
+		return n, fmt.Errorf("the SMT translation disagrees with Go's regexp on the sample strings: %s", tailStr(string(out), 300))
+	}
+	// negative control: flipping one expectation must be refuted
+	flip := strings.Replace(sb.String(), "true))\n", "false))\n", 1)
+	cmd = exec.Command("z3-new", "-in", "-T:60")
+	cmd.Stdin = strings.NewReader(flip)
+	out, _ = cmd.CombinedOutput()
+	if strings.TrimSpace(strings.SplitN(string(out), "\n", 2)[0]) != "unsat" {
+		return n, fmt.Errorf("negative control of the cross-validation was not refuted: %s", tailStr(string(out), 200))
+	}
+	return n, nil
+}
+
+func cmdConsts(args []string) int {
+	if len(args) < 1 {
+		return 2
+	}
+	p, err := extractPatterns(args[0])
+	if err != nil {
+		fmt.Fprintln(os.Stderr, err)
+		return 2
+	}
+	b, _ := json.MarshalIndent(p, "", " ")
+	fmt.Println(string(b))
+	return 0
+}
+
+func compileGo(pat string) (*regexp.Regexp, error) { return regexp.Compile(pat) }
